@@ -665,23 +665,53 @@ def _check_gaussian(ctx, repo, init: FuncInfo) -> None:
     vdefs = [d for d in df.reaching(at, vname)]
     ctx.require(len(vdefs) == 1 and vdefs[0].kind == "assign", f"{f.qualname}: `{vname}` has several definitions")
     lin, lat = _follow(df, at, b["values"])
-    ctx.require(isinstance(lin, ast.Call) and last_attr(lin) == "linspace",
-                f"{f.qualname}: values are not produced by linspace")
-    lb = _bind_linspace(lin)
-    for k in ("start", "stop", "num"):
-        ctx.require(k in lb, f"{f.qualname}: linspace {k} missing")
-    ep = lb.get("endpoint")
-    ctx.check(ep is None or (isinstance(ep, ast.Constant) and ep.value is True), "R-GAUSS",
-              f"{f.qualname}:linspace-endpoint", f.loc(lin), "both limits are sampled (endpoint=True)",
-              "the upper limit is excluded: the values are not symmetric about the center", key_detail="endpoint")
-    nz = _N(df, lat)
+    if isinstance(lin, ast.Call) and last_attr(lin) == "linspace":
+        lb = _bind_linspace(lin)
+        for k in ("start", "stop", "num"):
+            ctx.require(k in lb, f"{f.qualname}: linspace {k} missing")
+        ep = lb.get("endpoint")
+        ctx.check(ep is None or (isinstance(ep, ast.Constant) and ep.value is True), "R-GAUSS",
+                  f"{f.qualname}:linspace-endpoint", f.loc(lin), "both limits are sampled (endpoint=True)",
+                  "the upper limit is excluded: the values are not symmetric about the center", key_detail="endpoint")
+        nz = _N(df, lat)
+        ends = {k: nz.norm(lb[k]) for k in ("start", "stop", "num")}
+        how = "linspace"
+    else:
+        # an equally spaced grid written as A + B * arange(n): first = A, last = A + B (n - 1)
+        counts: list = []
+
+        def hook(nz_, call):
+            if last_attr(call) == "arange" and len(call.args) == 1:
+                counts.append(nz_.norm(call.args[0]))
+                return Poly.atom("⟦k⟧")
+            return _hook(nz_, call)
+
+        from ..rules.ratfun import Rat, RatFlow
+
+        nzg = RatFlow(df, lat, call_hook=hook, identity_calls={"float"})
+        vp = nzg.rat(lin)  # rational function: (n - 1) / 2 * 2 h / (n - 1) cancels
+        ctx.require(len({c_.key() for c_ in counts}) == 1 and "⟦k⟧" in vp.atoms(),
+                    f"{f.qualname}: values are neither linspace(...) nor A + B*arange(n) (`{norm_text(lin)[:60]}`)")
+        A = vp.subst({"⟦k⟧": Poly.const(0)})
+        B = vp.subst({"⟦k⟧": Poly.const(1)}) - A
+        ctx.require(vp == A + B * Rat(Poly.atom("⟦k⟧")), f"{f.qualname}: values are not affine in arange(n)")
+        ends = {"start": A, "stop": A + B * Rat(counts[0] - Poly.const(1)), "num": Rat(counts[0])}
+        how = "A + B*arange(n)"
     c, s, L, n = (elem(p, lat) for p in ("center", "standard_deviation", "sampling_limit", "num_samples"))
     for k, want, txt in (("start", c - s * L, "center[i] − σ[i]·limit[i]"), ("stop", c + s * L,
                                                                                "center[i] + σ[i]·limit[i]"),
                          ("num", n, "num_samples[i]")):
-        got = nz.norm(lb[k])
-        ctx.check(got == want, "R-GAUSS", f"{f.qualname}:linspace-{k}", f.loc(lin), f"linspace {k} = {txt}",
-                  f"linspace {k} is {got.key()}, expected {txt} = {want.key()}", key_detail=k)
+        got = ends[k]
+        if not isinstance(got, Poly):  # rational-function comparison by cross-multiplication
+            from ..rules.ratfun import Rat as _Rat
+
+            same = got == _Rat.of(want)
+        else:
+            same = got == want
+        ctx.check(same, "R-GAUSS", f"{f.qualname}:linspace-{k}", f.loc(lin), f"{how}: {k} = {txt}",
+                  f"the {'first' if k == 'start' else 'last' if k == 'stop' else 'number of'} sample value(s) of the "
+                  f"grid ({how}) is {got.key()[:120]}, expected {txt} = {want.key()}: the samples are not symmetric "
+                  "about the center within the sampling limit", key_detail=k)
 
     # weights = exp(-1/2 (v-c)^2 / σ^2), then normalised in the literal arm
     body_nodes = df.cfg.loop_body_nodes(hdr)
@@ -699,6 +729,13 @@ def _check_gaussian(ctx, repo, init: FuncInfo) -> None:
     cw, sw = elem("center", wdef.node), elem("standard_deviation", wdef.node)
     want = Poly.const(Fraction(-1, 2)) * (v - cw) * (v - cw) * (sw * sw).inverse()
     got = nzw.norm(wexpr.args[0])
+    if got != want:
+        # the profile may be written in terms of the offsets from the centre: compare with everything inlined
+        nzf = _N(df, wdef.node)
+        vfull = nzf.norm(ast.Name(id=vname, ctx=ast.Load()))
+        want_full = Poly.const(Fraction(-1, 2)) * (vfull - cw) * (vfull - cw) * (sw * sw).inverse()
+        if nzf.norm(wexpr.args[0]) == want_full:
+            got = want
     ctx.check(got == want, "R-GAUSS", f"{f.qualname}:profile", f.loc(df.cfg.nodes[wdef.node].ast),
               "weights = exp(−½(values − center[i])²/σ[i]²)",
               f"the exponent is {got.key()}, expected −½(values − center[i])²/σ[i]² = {want.key()}",
@@ -799,3 +836,17 @@ def run(ctx) -> None:  # noqa: F811
     ctx.ok("R-LOOPREUSE", "scan abtem.distributions", "abtem/distributions.py",
            f"{n} loop-carried reuse guards found", nontrivial=False)
     _inner_run_c36(ctx)
+
+
+# ---- added after the seeded change C19-r3seed4: blocks keep the receiver's ensemble_mean
+_inner_run_c36b = run
+
+
+def run(ctx) -> None:  # noqa: F811
+    from ..rules import blockflags
+
+    ctx.rule("R-BLOCKFLAGS", blockflags.__doc__.split("\n\n", 1)[1])
+    n = blockflags.check(ctx)
+    ctx.require(n >= 1, f"R-BLOCKFLAGS found no sub-distribution constructor in DistributionFromValues")
+    _inner_run_c36b(ctx)
+
